@@ -98,8 +98,10 @@ class LiftedScript:
         for h, ps in zip(self.handles, self.stmts):
             _state["trees"][h] = [ps.seg]
         if tsql:
-            # T-SQL no-semicolon mode: the script itself goes to the parse entry point, which yields every statement
+            # T-SQL no-semicolon mode: the script itself goes to the parse entry point, which yields every statement;
+            # sqlparse's split (no semicolons in such a script) would see ONE piece
             _state["trees"][self.script_handle] = [ps.seg for ps in self.stmts]
+            _state["scripts"][self.script_handle] = [self.script_handle]
         else:
             _state["trees"].pop(self.script_handle, None)
         if provider is not None:
